@@ -135,6 +135,9 @@ struct MSound {
 struct MTrack {
 	id: usize,
 	alive: bool,
+	/// the handle was dropped (alone, or with the whole subtree): the track goes at the first callback at whose start it
+	/// and every track below it that the audio thread holds have lost their handles - and takes the subtree with it
+	dropped: bool,
 	remove_in: Option<u8>,
 	picked_up: bool,
 	paused: bool,
@@ -229,7 +232,20 @@ impl Model {
 			}
 			*picked_up = true;
 		}
+		fn all_marked(t: &MTrack) -> bool {
+			t.dropped && t.children.iter().filter(|c| c.alive && c.picked_up).all(all_marked)
+		}
+		fn kill(t: &mut MTrack) {
+			t.alive = false;
+			for c in t.children.iter_mut() {
+				kill(c);
+			}
+		}
 		fn walk(t: &mut MTrack, transition: &mut bool, frames: usize, ancestors_running: bool) {
+			if t.alive && t.remove_in.is_none() && t.picked_up && all_marked(t) {
+				// (decided by the parent before the track's own callback work: children added since the previous callback do not count)
+				kill(t);
+			}
 			tick(&mut t.alive, &mut t.remove_in, &mut t.picked_up);
 			// route volume tweens run whenever the track is processed, i.e. its ancestors are not paused (whether the track
 			// itself is paused does not matter); while one may be under way the callback is a ramp
@@ -418,6 +434,7 @@ fn mark_dropped(t: &mut MTrack) {
 		mark_dropped(c);
 	}
 	t.handle = None;
+	t.dropped = true;
 	if t.remove_in.is_none() {
 		t.remove_in = Some(if t.picked_up { 1 } else { 2 });
 	}
@@ -483,7 +500,7 @@ fn one_case(ctx: &mut Ctx, idx: u64, r: &mut Rng) {
 								}
 								if let Some(h) = t.handle.as_mut() {
 									if let Ok(nh) = h.add_sub_track(b.take().unwrap()) {
-										new = Some(MTrack { id, alive: true, remove_in: None, picked_up: false, paused: false, pause_pending: None, vol_db: vol, vol_pending: None, fx: fxs.clone(), routes: routes.clone(), route_pending: vec![], sounds: vec![], children: vec![], handle: Some(nh), depth: t.depth + 1 });
+										new = Some(MTrack { id, alive: true, dropped: false, remove_in: None, picked_up: false, paused: false, pause_pending: None, vol_db: vol, vol_pending: None, fx: fxs.clone(), routes: routes.clone(), route_pending: vec![], sounds: vec![], children: vec![], handle: Some(nh), depth: t.depth + 1 });
 									}
 								}
 								if let Some(n) = new.take() {
@@ -494,7 +511,7 @@ fn one_case(ctx: &mut Ctx, idx: u64, r: &mut Rng) {
 							log_lines.push(format!("cb{}: add nested track {}", cb, id));
 						} else {
 							let h = rig.mgr.add_sub_track(b).map_err(|_| "track limit")?;
-							model.tracks.push(MTrack { id, alive: true, remove_in: None, picked_up: false, paused: false, pause_pending: None, vol_db: vol, vol_pending: None, fx: fxs, routes, route_pending: vec![], sounds: vec![], children: vec![], handle: Some(h), depth: 0 });
+							model.tracks.push(MTrack { id, alive: true, dropped: false, remove_in: None, picked_up: false, paused: false, pause_pending: None, vol_db: vol, vol_pending: None, fx: fxs, routes, route_pending: vec![], sounds: vec![], children: vec![], handle: Some(h), depth: 0 });
 							log_lines.push(format!("cb{}: add track {}", cb, id));
 						}
 					}
@@ -598,7 +615,16 @@ fn one_case(ctx: &mut Ctx, idx: u64, r: &mut Rng) {
 					8 if alive > 0 && cb > 0 => {
 						// drop a track (with its subtree)
 						let mut k = g.r.below(alive as u64) as usize;
+						let alone = g.r.chance(0.5);
 						with_kth(&mut model.tracks, &mut k, &mut |t: &mut MTrack| {
+							if alone {
+								// only this track's handle: the track stays (and keeps sounding) for as long as a track below it is kept
+								if t.handle.take().is_some() {
+									t.dropped = true;
+									log_lines.push(format!("cb{}: drop the handle of track {} alone (picked up: {}, {} children)", cb, t.id, t.picked_up, t.children.iter().filter(|c| c.alive).count()));
+								}
+								return;
+							}
 							log_lines.push(format!("cb{}: drop track {} (picked up: {})", cb, t.id, t.picked_up));
 							mark_dropped(t)
 						});
